@@ -222,7 +222,8 @@ def fulfillP (L : Lang) (ord : List Nat → List Nat) (m3 : Store → Nat → Bo
             | _ => .ok (setConstr σ1 c (.elim ref alts' ful), ful)
         | _ => .error (.internal "fulfill:constraint changed kind")
 
-/-- `EliminationConstraint.minimize()` (type.py:1031-1049) -/
+/-- `EliminationConstraint.minimize()` (type.py:1031-1049); the kept alternatives are followed once more at the end: fixing a
+later alternative may have bound a variable that is an earlier alternative -/
 def minimizeP (L : Lang) (ord : List Nat → List Nat) (m3 : Store → Nat → Bool → Bool → Term → Term → Option Bool) (occ : Store → Nat → Term → Term → Bool) : Nat → Store → Nat → R
   | 0, _, _ => .error .outOfFuel
   | n+1, σ, c =>
@@ -232,7 +233,7 @@ def minimizeP (L : Lang) (ord : List Nat → List Nat) (m3 : Store → Nat → B
       | .error e => .error e
       | .ok (σ1, minimized) =>
         (match getConstr σ1 c with
-         | .elim _ _ ful => .ok (setConstr σ1 c (.elim (followT σ1 ref) minimized ful))
+         | .elim _ _ ful => .ok (setConstr σ1 c (.elim (followT σ1 ref) (minimized.map (followT σ1)) ful))
          | _ => .ok σ1)
     | _ => .ok σ
 
